@@ -43,10 +43,10 @@ def mask_where(self, mask, replace=None, remask=True, recursive=True):
 
     # Shapeless case
     if np.isscalar(self._values_):
-        if replace is None:
-            obj = self.copy(recursive=True)
-        else:
-            obj = replace.copy(recursive=True)
+        obj = self.copy(recursive=True)
+        if replace is not None:
+            obj[...] = replace          # as in the array case below: keeps the
+                                        # derivatives, set to zero if missing
 
         if remask:
             obj = obj.remask(True, recursive=recursive)
